@@ -162,6 +162,7 @@ def expected_shape(f, s):
 # ------------------------------------------------------------------ clause: value vs oracle
 
 def chk_oracle(inp, c):
+    c.decoy = True          # every judged call is preceded by a call with same-shape, same-end-point inputs
     f, s, dom, trapz = inp["filters"], inp["signals"], inp["domain"], inp["trapz"]
     _cells(c, inp)
     n = f.shape[-1]
@@ -256,6 +257,7 @@ def gen_lin(rng, i):
 
 
 def chk_lin(inp, c):
+    c.decoy = True          # every judged call is preceded by a call with same-shape, same-end-point inputs
     f, s, f2, s2 = inp["filters"], inp["signals"], inp["filters2"], inp["signals2"]
     a, b, dom, trapz = inp["a"], inp["b"], inp["domain"], inp["trapz"]
     _cells(c, inp)
@@ -317,6 +319,7 @@ def gen_integral(rng, i):
 
 
 def chk_integral(inp, c):
+    c.decoy = True          # every judged call is preceded by a call with same-shape, same-end-point inputs
     arr, dom, axis, keep = inp["arr"], inp["domain"], inp["axis"], inp["keepdims"]
     k = inp["dkind"]
     c.cell("integral", "domain=" + ("scalar" if k == "scalar" else "uniform" if k == "uniform" else
@@ -363,6 +366,7 @@ def gen_est(rng, i):
 
 
 def chk_est(inp, c):
+    c.decoy = True          # every judged call is preceded by a call with same-shape, same-end-point inputs
     c.relayout = False      # bit-level comparison of two runs: both must see the same memory layout
     f, s, dom = inp["filters"], inp["signals"], inp["domain"]
     k = inp["dkind"]
